@@ -465,6 +465,19 @@ impl<'l, T: Debug> OrderedLocalQueue<'l, T> {
     }
 
     fn pop_local(&self) -> Option<T> {
+        // `Worker::pop` gives its slot back before it has read the item, which is only
+        // safe when nobody pushes meanwhile: take the producers' turn flag, otherwise a
+        // task submitted from another thread can overwrite the item being popped
+        // (that task then runs twice and the popped one is lost).
+        while !self.try_lock() {
+            std::thread::yield_now();
+        }
+        let popped = self.pop_local_in_turn();
+        self.release_lock();
+        popped
+    }
+
+    fn pop_local_in_turn(&self) -> Option<T> {
         //从本地队列弹出元素
         for entry in self.queue {
             if let Some(val) = entry.value().pop() {
